@@ -102,7 +102,8 @@ impl Constraint {
                 extensible,
             }) = &set.set
             {
-                return Ok((min, max, *extensible));
+                // `(0..5, ...)` carries the marker in the range, `((0..5), ...)` in the element set
+                return Ok((min, max, *extensible || set.extensible));
             }
         }
         Err(GrammarError::new(
@@ -118,7 +119,7 @@ impl Constraint {
                 extensible,
             }) = &set.set
             {
-                return Ok((value, *extensible));
+                return Ok((value, *extensible || set.extensible));
             }
         }
         Err(GrammarError::new(
